@@ -218,3 +218,93 @@ class OneOfCustomApply(Contract):
   def small_models(self):
     from pyvc.contracts import Model
     yield Model({}, {})
+
+
+# ---------------------------------------------------------------------------
+# hyper.Float.custom_apply: a floatv(lo, hi) is accepted for a float-valued
+# field exactly when every value it can decode to is acceptable there, i.e. the
+# field's range contains [lo, hi] -- on each side: no bound, or bound on the
+# right side of lo / hi.  (Bounds are reals; 0 and None are different things.)
+
+from pyglove.core.hyper import numerical as _hnum   # noqa: E402  pylint: disable=wrong-import-position
+from pyvc.values import SReal   # noqa: E402  pylint: disable=wrong-import-position
+
+HN = 'pyglove.core.hyper.numerical'
+
+
+@register
+class FloatCustomApply(Contract):
+  prop = 'C13'
+  target = f'{HN}:Float.custom_apply'
+  variants = ('min+max', 'min-only', 'max-only', 'unbounded', 'not-a-float-field')
+  exc_class_outside_the_field_range = ValueError
+  raises = {TypeError: ()}
+
+  def inputs(self, b):
+    v = self.variant
+    self._lo, self._hi = b.real('lo'), b.real('hi')
+    self._smin = b.real('spec_min') if v in ('min+max', 'min-only') else None
+    self._smax = b.real('spec_max') if v in ('min+max', 'max-only') else None
+    self._fspec = SObj(pg.typing.Float, {'_min_value': self._smin, '_max_value': self._smax,
+                                         'min_value': self._smin, 'max_value': self._smax}, name='float_spec')
+    self._vspec = SObj(object, {'value_type': float}, name='value_spec')
+    s = SObj(_hnum.Float, {'min_value': self._lo, 'max_value': self._hi, '_sym_attributes': SAny('attrs')}, name='self')
+    return dict(self=s, path=SAny('path'), value_spec=self._vspec, allow_partial=b.bool('ap'),
+                child_transform=None), {}
+
+  def requires(self, self_):
+    return self_.min_value <= self_.max_value
+
+  def setup_policy(self, policy):
+    me = self
+
+    def ensure(interp, args, kwargs, frame):
+      interp.path.event('ensure', 'ensure_value_spec', [interp.resolve(a) for a in args])
+      if me.variant == 'not-a-float-field':
+        if interp.path.decide(2, 'field-is-Any') == 1:
+          return None                     # e.g. an Any field: nothing to check
+        raise I.PyRaise(ExcVal(TypeError, ('not a float field',)))
+      return me._fspec
+    policy.handlers[id(pg.typing.ensure_value_spec)] = ensure
+    policy.pure = tuple(policy.pure) + ('pyglove.core.utils.formatting:message_on_path',)
+
+  @direct
+  def exc_iff_outside_the_field_range(self, interp, env):
+    if self.variant == 'not-a-float-field':
+      return z3.BoolVal(False)
+    lo, hi = interp.to_z3(self._lo), interp.to_z3(self._hi)
+    zs = []
+    if self._smin is not None:
+      zs.append(lo < interp.to_z3(self._smin))
+    if self._smax is not None:
+      zs.append(hi > interp.to_z3(self._smax))
+    return z3.Or(*zs) if zs else z3.BoolVal(False)
+
+  def ensures_placeholder_itself_is_kept(self, self_, result):
+    return result[0] is False and result[1] is self_
+
+  def small_models(self):
+    from pyvc.contracts import Model
+    for smin in (None, 0.0, -1.0, 0.5):
+      for smax in (None, 0.0, 1.0, 2.0):
+        for lo, hi in ((-1.0, 1.0), (0.0, 1.0), (-0.5, 0.0), (0.5, 2.0), (0.0, 0.0)):
+          yield Model(dict(spec_min=smin, spec_max=smax, lo=lo, hi=hi), {})
+
+  def replay(self, obligation, m):
+    smin, smax, lo, hi = m.get('spec_min'), m.get('spec_max'), m.get('lo'), m.get('hi')
+    if lo is None or hi is None or lo > hi or (smin is not None and smax is not None and smin > smax):
+      return dict(outcome='not-reproduced', detail='model outside the precondition')
+    if self.variant in ('max-only', 'unbounded', 'not-a-float-field'):
+      smin = None
+    if self.variant in ('min-only', 'unbounded', 'not-a-float-field'):
+      smax = None
+    want_refused = (smin is not None and lo < smin) or (smax is not None and hi > smax)
+    try:
+      pg.Dict(x=pg.floatv(lo, hi), value_spec=pg.typing.Dict([('x', pg.typing.Float(min_value=smin, max_value=smax))]))
+      refused = False
+    except ValueError:
+      refused = True
+    bad = refused != want_refused
+    return dict(outcome='reproduced' if bad else 'not-reproduced',
+                detail=f'floatv({lo}, {hi}) bound to Float(min_value={smin}, max_value={smax}): '
+                       f'{"refused" if refused else "accepted"}, the field accepts every value of the range: {not want_refused}')
